@@ -26,6 +26,7 @@ class Body:
         self.locals = data["locals"]
         self.arg_count = data["arg_count"]
         self.span = data["span"]
+        self.ext = bool(data.get("ext"))
         self.key = self.id if self.promoted is None else "%s::promoted[%d]" % (self.id, self.promoted)
 
     @property
@@ -150,6 +151,11 @@ class Program:
         for cname, data in self.crates.items():
             for bd in data["bodies"]:
                 b = Body(cname, bd)
+                if b.ext:
+                    # an exported std body (available to the interpreter; not part of any workspace crate)
+                    b.crate = "std"
+                    self.bodies.setdefault(b.key, b)
+                    continue
                 if b.key in self.bodies and cname.startswith("build_script"):
                     b.key = cname + "::" + b.key
                 self.bodies[b.key] = b
@@ -177,6 +183,11 @@ class Program:
 
     def body(self, key):
         return self.bodies.get(key)
+
+    def is_ws(self, key):
+        """Is `key` a body of the workspace (as opposed to an exported std body)?"""
+        b = self.bodies.get(key)
+        return b is not None and not b.ext
 
     _REFP = re.compile(r"^(&('[A-Za-z_0-9]+ )?(mut )?|\*const |\*mut )")
 
@@ -252,7 +263,7 @@ class Program:
                         yield ("fnptr", a["fn"]["path"], t, i)
                 if c is None:
                     yield ("indirect", t["fn_ty"], t, i)
-                elif c["resolved"] and c["path"] in self.bodies:
+                elif c["resolved"] and c["path"] in self.bodies and not self.bodies[c["path"]].ext:
                     yield ("call", c["path"], t, i)
                 elif c["resolved"]:
                     yield ("ext", c["path"], t, i)
@@ -282,7 +293,7 @@ class Program:
             for kind, tgt, t, bb in self.call_edges(b):
                 nxt = []
                 if kind in ("call", "closure", "fnptr"):
-                    if tgt in self.bodies:
+                    if tgt in self.bodies and not self.bodies[tgt].ext:
                         nxt.append(tgt)
                 elif kind == "unresolved":
                     c = t["callee"]
